@@ -1,0 +1,8 @@
+//go:build !verif
+
+package packetlimiter
+
+import "time"
+
+// nowNano is the clock of Limiter.Account.
+func nowNano() int64 { return time.Now().UnixNano() }
